@@ -2,6 +2,8 @@
 (* Bounded instances of the .eh_frame writer machine. *)
 EXTENDS EhFrame
 NFn221 == <<2, 2, 1>>
+NFn21 == <<2, 1>>
+Perms3 == {<<30, 10, 20>>}
 NFn332 == <<3, 3, 2>>
 St3 == {"kept", "gc", "comdat"}
 St4 == {"kept", "gc", "comdat", "empty"}
